@@ -122,7 +122,20 @@ def delete_inv(b):
     return inv
 
 
-def delete_events(p):
+def site_label(e, by_type):
+    """which deletion phase a quantified call belongs to: decided by WHAT it ranges over (digests / locations), not by the name of the
+    function handed to gather (a wrapper or a renamed closure is the same phase)"""
+    v = e.data.get('var')
+    if by_type and isinstance(v, SV) and v.ty in by_type:
+        return by_type[v.ty]
+    return e.data['label']
+
+
+DELETE_SITES = {BYTES: '_delete_chunk', STR: '_delete_snapshot'}
+CLEAN_SITES = {STR: '_delete_chunk'}
+
+
+def delete_events(p, by_type=None):
     """-> (list of (kind, location z3, cond pcs, phase_index)), in trace order"""
     out = []
     phase = 0
@@ -138,7 +151,7 @@ def delete_events(p):
                 for se in sp['events']:
                     if se.kind in ('delete', 'delete_cached'):
                         out.append({'kind': se.kind, 'loc': sym.lift(se.data['location'], STR).z, 'var': e.data['var'],
-                                    'member': e.data['member'], 'cond': sp['pc'], 'phase': phase, 'label': e.data['label'],
+                                    'member': e.data['member'], 'cond': sp['pc'], 'phase': phase, 'label': site_label(e, by_type),
                                     'partial': e.data['partial']})
         elif e.kind in ('delete', 'delete_cached'):
             out.append({'kind': e.kind, 'loc': sym.lift(e.data['location'], STR).z, 'var': None, 'phase': phase,
@@ -155,7 +168,7 @@ def make_delete_post(prop):
         named = lambda ii: z3.Select(S0, snap_name(L.path(ii)))
         inrange = lambda ii: z3.And(0 <= ii, ii < L.n)
         for n_p, p in enumerate(res.paths):
-            evs = delete_events(p)
+            evs = delete_events(p, DELETE_SITES)
             dels = [e for e in evs if e['kind'] == 'delete']
             sig = ','.join(f"{e['label']}" for e in dels) + '->' + p.kind
             # no deletion happens inside the loading loop or before the checks
@@ -196,7 +209,7 @@ def make_delete_post(prop):
                 else:
                     res.oblige(p, f'{prop}.delete.unexpected_delete_site[{sig}]', z3.BoolVal(False))
             if p.kind in ('return', 'normal'):
-                fa = {e.data['label']: e for e in p.st.events if e.kind == 'forall'}
+                fa = {site_label(e, DELETE_SITES): e for e in p.st.events if e.kind == 'forall'}
                 if not dels and not fa:
                     # returned without deleting: only the interactive refusal
                     res.oblige(p, f'{prop}.delete.noop_only_when_declined[{sig}]',
@@ -226,7 +239,7 @@ def make_delete_post(prop):
                 res.oblige(p.st.pc + list(e['cond']), f'{prop}.delete.cache_touched_only_with_a_cache_directory[{sig}]', z3.Not(cd.ty.is_none(cd.z)))
         # raising paths: ReplicatError before any deletion when something requested is missing/foreign
         for p in res.raises('ReplicatError'):
-            res.oblige(p, f'{prop}.delete.refusal_precedes_deletes', z3.BoolVal(not delete_events(p)))
+            res.oblige(p, f'{prop}.delete.refusal_precedes_deletes', z3.BoolVal(not delete_events(p, DELETE_SITES)))
     return post
 
 
@@ -344,7 +357,7 @@ def make_clean_post(prop, me_holder):
         referenced = lambda x: z3.Exists([i, d], z3.And(inrange(i), z3.Select(L.chunks(i), d), loc(d) == x))
         for p in res.paths:
             view = shared.PropsView(p.st, me.props)
-            evs = delete_events(p)
+            evs = delete_events(p, CLEAN_SITES)
             dels = [e for e in evs if e['kind'] == 'delete']
             sig = ','.join(e['label'] for e in dels) + '->' + p.kind
             exited = [e for e in p.st.events if e.kind == 'loop_exit']
